@@ -443,3 +443,11 @@ def valve_internal_nodes_c04(ctx):
     """the edges of pipe-attached valves (junction -- internal node) enter the connectivity search through this wiring"""
     from contracts.C06 import valve_internal_nodes_bounded
     valve_internal_nodes_bounded(ctx)
+
+
+@unit("C04", "component_array", functions=["pandapipes.component_models.component_toolbox:get_component_array"], engine="E3")
+def component_array_c04(ctx):
+    """the per-component arrays follow the ACTIVE part of the stage they are used in (hydraulic vs thermal connectivity):
+    shared with C03"""
+    from contracts.C03 import component_array
+    component_array(ctx)
